@@ -1,5 +1,6 @@
-(* The tier loop of the Tideman alternative (Model/Hybrids.v, repaired elimination step) never runs into the IndexError of
-   eliminate_one on a profile whose pairwise dictionary is not empty: after an elimination without a tie the restricted
+(* A tier of the Tideman alternative (Model/Hybrids.v, repaired elimination step) that starts on a profile whose pairwise
+   dictionary is not empty keeps a pairwise contest in every round: it never runs into the IndexError of eliminate_one -
+   repaired for a profile without a contest (sc) or not - and the repair changes nothing there: after an elimination without a tie the restricted
    profile still holds a pairwise contest.  Otherwise all survivors R would share one rank on every ballot that counts;
    the eliminated candidate c then has its first preferences only from ballots that rank it alone on top, every survivor
    beats it pairwise (first preferences of a survivor - of c <= pairwise margin of the survivor over c, ballot by
@@ -371,37 +372,86 @@ Proof.
 Qed.
 
 (* ================================================================ the tier loop never raises IndexError *)
-Lemma tier_no_index : forall fuel round, wf_votes round = true -> pairwise round <> [] ->
-  tideman_tier true fuel round <> inr H_index.
+(* one round of a tier that starts with a pairwise contest: the winner set is the Smith set - two or more candidates, or
+   the tier is decided -, the elimination answers, and a further round starts with a contest again *)
+Lemma tier_round f round : wf_votes round = true -> pairwise round <> [] ->
+  (exists w, forall sc, tideman_tier true sc (S f) round = inl (Cand w)) \/
+  (forall sc, tideman_tier true sc (S f) round = inr H_nie) \/
+  (exists round', wf_votes round' = true /\ pairwise round' <> [] /\
+                  forall sc, tideman_tier true sc (S f) round = tideman_tier true sc f round').
 Proof.
-  induction fuel as [|f IH]; intros round Hwf Hne; [destruct round; discriminate|].
-  destruct round as [|bw t]; [exfalso; apply Hne; reflexivity|]. rewrite tideman_tier_unfold by discriminate.
-  set (round := bw :: t) in *. clearbody round.
+  intros Hwf Hne.
+  assert (Hrne : round <> []) by (intros ->; apply Hne; reflexivity).
   pose proof (smith_round_cands round Hwf Hne) as HK1.
   pose proof (elimination_keeps_contest round) as HM. cbv zeta in HM.
-  destruct (smith_dominating (pairwise round) (pairwise_two round Hwf Hne)) as [Hsne _].
+  pose proof (smith_nonempty round Hwf Hne) as Hsne.
   pose proof (smith_nodup (pairwise round)) as Hsnd.
-  destruct (smith_schwartz (pairwise round) true) as [|s [|s2 ss]] eqn:Es; [congruence|discriminate|].
-  cbv zeta. set (sset := s :: s2 :: ss) in *. set (round1 := subset_votes sset round) in *.
+  assert (Hunf : forall sc, tideman_tier true sc (S f) round =
+    match smith_schwartz (pairwise round) true with
+    | [w] => inl (Cand w)
+    | sset => let round1 := subset_votes sset round in
+              match eliminate_one round1 with
+              | None => inr H_index
+              | Some rem => if true && has_tie rem then inr H_nie
+                            else match rem with [r] => inl r | _ => tideman_tier true sc f (subset_votes (plain rem) round1) end
+              end
+    end).
+  { intros sc. rewrite (tideman_tier_unfold true sc f round Hrne), (winner_set_contest sc round Hwf Hne). reflexivity. }
+  destruct (smith_schwartz (pairwise round) true) as [|s [|s2 ss]] eqn:Es; [congruence|left; exists s; intros sc; rewrite Hunf; reflexivity|].
+  set (sset := s :: s2 :: ss) in *. set (round1 := subset_votes sset round) in *.
   pose proof (subset_wf sset round Hwf) as Hwf1. fold round1 in Hwf1.
   assert (HlenK : 2 <= length (Kc round1)).
   { rewrite (same_keys_length (Kc round1) sset (arc_nodup round1) Hsnd HK1). cbn [sset length]. lia. }
-  destruct (elim_nform round1 Hwf1 HlenK) as (rem & Ee & Hnf). rewrite Ee. cbn [andb].
-  destruct (has_tie rem) eqn:Et; [discriminate|].
+  destruct (elim_nform round1 Hwf1 HlenK) as (rem & Ee & Hnf).
+  assert (Hunf2 : forall sc, tideman_tier true sc (S f) round =
+     if has_tie rem then inr H_nie else match rem with [r] => inl r | _ => tideman_tier true sc f (subset_votes (plain rem) round1) end).
+  { intros sc. rewrite Hunf. cbv zeta. fold round1. rewrite Ee. reflexivity. }
+  destruct (has_tie rem) eqn:Et; [right; left; exact Hunf2|].
   destruct (elim_spec round1 rem Hwf1 Ee Et) as (R & E1 & E2 & E3 & E4).
   destruct rem as [|r [|r2 rr]].
   - destruct R; [|discriminate]. cbn [length] in E4. lia.
-  - discriminate.
-  - rewrite E1, plain_map_cand. apply IH; [apply subset_wf, Hwf1|].
-    rewrite E1 in Ee. apply (HM R Hwf Hne Ee).
-    assert (El : length (r :: r2 :: rr) = length R) by (rewrite E1, map_length; reflexivity). cbn [length] in El. lia.
+  - left. destruct R as [|x [|y R]]; try discriminate. injection E1 as ->. exists x. exact Hunf2.
+  - right. right. exists (subset_votes R round1).
+    assert (H2 : 2 <= length R).
+    { assert (El : length (r :: r2 :: rr) = length R) by (rewrite E1, map_length; reflexivity). cbn [length] in El. lia. }
+    split; [apply subset_wf, Hwf1|]. split.
+    + rewrite E1 in Ee. exact (HM R Hwf Hne Ee H2).
+    + intros sc. rewrite Hunf2, E1, plain_map_cand. destruct R as [|x [|y R']]; [cbn [length] in H2; lia|cbn [length] in H2; lia|reflexivity].
 Qed.
 
-Theorem tideman_no_index votes n : wf_votes votes = true -> pairwise votes <> [] -> tideman_alt true votes n <> H_index.
+Lemma tier_no_index sc : forall fuel round, wf_votes round = true -> pairwise round <> [] ->
+  tideman_tier true sc fuel round <> inr H_index.
 Proof.
-  intros Hwf Hne. unfold tideman_alt.
-  destruct (tideman_tier true (S (S (length (Kc votes)))) votes) as [[w|l]|e] eqn:Et.
-  - destruct (cmem w _); [destruct (_ || _)|]; discriminate.
+  induction fuel as [|f IH]; intros round Hwf Hne; [destruct round; discriminate|].
+  destruct (tier_round f round Hwf Hne) as [(w & E)|[E|(round' & Hwf' & Hne' & E)]]; rewrite E; [discriminate|discriminate|].
+  exact (IH _ Hwf' Hne').
+Qed.
+
+(* the repair for a profile without a pairwise contest is conservative: a tier that starts with a contest keeps one in every
+   round, so the fallback of get_winner_set is never taken and the repaired tier answers exactly as the unrepaired one *)
+Lemma tier_repair_conservative : forall fuel round, wf_votes round = true -> pairwise round <> [] ->
+  tideman_tier true true fuel round = tideman_tier true false fuel round.
+Proof.
+  induction fuel as [|f IH]; intros round Hwf Hne; [destruct round; reflexivity|].
+  destruct (tier_round f round Hwf Hne) as [(w & E)|[E|(round' & Hwf' & Hne' & E)]]; rewrite !E; [reflexivity|reflexivity|].
+  exact (IH _ Hwf' Hne').
+Qed.
+
+(* one seat (all that the code without the tier repair can fill): with a pairwise contest never IndexError, and the same
+   answer with and without the single-candidate repair *)
+Theorem tideman_no_index sc tr votes : wf_votes votes = true -> pairwise votes <> [] -> tideman_alt true sc tr votes 1 <> H_index.
+Proof.
+  intros Hwf Hne. unfold tideman_alt. rewrite tideman_loop_S.
+  destruct (tideman_tier true sc (tier_fuel_of votes) votes) as [[w|l]|e] eqn:Et.
+  - destruct (cmem w _); [|discriminate]. cbn [app length Nat.eqb orb]. discriminate.
   - discriminate.
-  - intros ->. exact (tier_no_index _ votes Hwf Hne Et).
+  - intros ->. exact (tier_no_index sc _ votes Hwf Hne Et).
+Qed.
+
+Theorem tideman_repair_conservative tr votes : wf_votes votes = true -> pairwise votes <> [] ->
+  tideman_alt true true tr votes 1 = tideman_alt true false tr votes 1.
+Proof.
+  intros Hwf Hne. unfold tideman_alt. rewrite !tideman_loop_S, (tier_repair_conservative _ votes Hwf Hne).
+  destruct (tideman_tier true false (tier_fuel_of votes) votes) as [[w|l]|e]; [|reflexivity|reflexivity].
+  destruct (cmem w _); reflexivity.
 Qed.
